@@ -90,8 +90,8 @@ def _judge(name, unit, result, ref, scale, eps, detail=None, factor=1.0, config=
     if np.shape(result) != np.shape(ref):
         # broadcast-compatible result shapes are accepted (size-one batch axes)
         try:
-            np.broadcast_shapes(np.shape(result), np.shape(ref))
-            if np.size(result) != np.size(ref):
+            # only leading / trailing size-one axes may differ (a scalar for a (1, 1) batch): the order of the batch axes may not
+            if np.ndim(result) == np.ndim(ref) or tuple(n for n in np.shape(result) if n != 1) != tuple(n for n in np.shape(ref) if n != 1):
                 raise ValueError
             result = np.reshape(result, np.shape(ref))
         except ValueError:
@@ -415,6 +415,14 @@ def _eig_common(name, a, values, vectors, hermitian, variant=""):
         eye = np.eye(n).reshape(n, n, *([1] * (gram.ndim - 2)))
         run.compare("math." + name, "routine=%s clause=orthonormal" % unit, maxabs(gram - eye), 1e-9,
                     "%s: eigenvectors not orthonormal" % unit, unit="math:" + unit)
+    else:
+        # complete set: the multiset of returned values is the spectrum of every item (not one pair returned d times)
+        ref = per_item(lambda m: np.sort_complex(np.linalg.eigvals(m)), [a0], [2])
+        got = np.sort_complex(np.moveaxis(np.asarray(values), 0, -1)) if np.ndim(values) > 1 else np.sort_complex(np.asarray(values))
+        got = np.moveaxis(got, -1, 0) if np.ndim(values) > 1 else got
+        if np.shape(got) == np.shape(ref):
+            run.compare("math." + name, "routine=%s clause=spectrum-complete" % unit, maxabs(got - ref) / scale, 1e-8,
+                        "%s: the returned eigenvalues are not the complete spectrum of every item" % unit, unit="math:" + unit + ":complete")
 
 
 def post_eigh(a, UPLO, result, OLD):
